@@ -431,6 +431,10 @@ def gen_plan(run_seed, idx, tier):
             als.append(al.lower() if rng.chance(1, 3) else al)
         forks.append({'code': code, 'name': nm, 'aliases': als,
                       'pred': rng.choice(PREDS), 'k': rng.rng(1, 4)})
+    if nforks >= 2 and idx % 3 == 1:
+        # an alias is handed over: whichever fork was activated last on a node owns it
+        for f in forks[:2]:
+            f['aliases'] = f['aliases'] + ['FKSHARED' if idx % 2 else 'fkshared']
     nnodes = rng.rng(2, 4)
     nodes = ['N%d' % i for i in range(nnodes)]
     fault_free = (idx % 4 == 3)
@@ -564,9 +568,14 @@ def execute(plan, run):
     active = {}            # node -> set of fork indices
     deliveries = {}        # tx -> list of (node, frozenset(active), verdict, step index)
     try:
+        owner = {}         # node -> {ALIAS: index of the fork activated last with it}
         for n in plan['nodes']:
             nodes[n] = Node()
             active[n] = set()
+            owner[n] = {}
+
+        def owned(n, j):
+            return [a for a in forks[j]['aliases'] if owner[n].get(a.upper()) == j]
         seen_sets = set()
         for i, st in enumerate(plan['steps']):
             n = st['node']
@@ -587,13 +596,17 @@ def execute(plan, run):
                 if r[0] != 'ok':
                     continue
                 active[n].add(st['fork'])
+                for a in f['aliases']:
+                    if owner[n].get(a.upper(), st['fork']) != st['fork']:
+                        run.probe('alias_handed_over')
+                    owner[n][a.upper()] = st['fork']
                 run.cells.add('forkcode|%d' % f['code'])
                 if f['name'] != f['name'].upper():
                     run.probe('name_lowercase')
                 if any(a != a.upper() for a in f['aliases']):
                     run.probe('alias_lowercase')
                 # F3 reachability + F2 one bytecode, right after activation
-                check_spellings(run, node, f, 3, 'd', i, legacy=before)
+                check_spellings(run, node, f, 3, 'd', i, legacy=before, aliases=owned(n, st['fork']))
                 run.ev('activate', i, n, f['code'], r[0])
             elif k == 'activate_bad':
                 f = forks[st['fork']]
@@ -624,6 +637,7 @@ def execute(plan, run):
                 nodes[n] = node = Node()
                 old = sorted(active[n])
                 active[n] = set()
+                owner[n] = {}
                 run.probe('node_restart')
                 run.fault('crash_restart')
                 if st.get('reapply'):
@@ -632,6 +646,8 @@ def execute(plan, run):
                         r = node.call('activate', f['code'], f['name'], f['aliases'], f['pred'], f['k'])
                         if r[0] == 'ok':
                             active[n].add(j)
+                            for a in f['aliases']:
+                                owner[n][a.upper()] = j
                 run.ev('restart', i, n, sorted(active[n]))
             elif k == 'deliver':
                 tx = plan['txs'].get(st['tx'])
@@ -644,7 +660,8 @@ def execute(plan, run):
                 if tx['kind'] == 'spelling':
                     f = forks[tx['fork']]
                     if tx['fork'] in aset:
-                        check_spellings(run, node, f, tx['count'], tx['how'], i)
+                        check_spellings(run, node, f, tx['count'], tx['how'], i,
+                                        aliases=owned(n, tx['fork']))
                     else:
                         check_legacy_spelling(run, node, f, tx['count'], i)
                     continue
@@ -786,7 +803,7 @@ def node_fingerprint(node, forks):
     return out
 
 
-def check_spellings(run, node, f, count, how, i, legacy=None):
+def check_spellings(run, node, f, count, how, i, legacy=None, aliases=None):
     """F2 / F3 on a node where fork f is active."""
     code = f['code']
     want = bytes([code, count])
@@ -794,7 +811,8 @@ def check_spellings(run, node, f, count, how, i, legacy=None):
     arg = ('d%d' % count) if how == 'd' else ('x%02X' % count) if how == 'X' else ('x%02x' % count)
     if how == 'X' and arg != arg[0] + arg[1:].lower():
         run.probe('count_in_upper_case_hex')
-    for sp in [f['name']] + list(f['aliases']):
+    aliases = list(f['aliases']) if aliases is None else aliases
+    for sp in [f['name']] + aliases:
         r = node.call('compile', '%s %s' % (sp, arg))
         kind = 'name' if sp == f['name'] else 'alias'
         case = 'upper' if sp == sp.upper() else 'not_upper'
@@ -805,7 +823,7 @@ def check_spellings(run, node, f, count, how, i, legacy=None):
                                   'want': want.hex(), 'fork': f})
     # ... and from inside every kind of block (expected bytes: what the pristine
     # compiler makes of the same source spelled with NOPn)
-    for sp in [f['name']] + list(f['aliases']):
+    for sp in [f['name']] + aliases:
         for ctx in SPELL_CONTEXTS:
             try:
                 exp = T.compile_script(ctx % ('NOP%d x%02x' % (code, count)))
